@@ -353,16 +353,15 @@ def _abstract_eval(pred: ast.expr, var: str, value) -> bool | None:
         if isinstance(n, ast.Constant):
             return n.value
         if isinstance(n, ast.BoolOp):
-            vals = [ev(v) for v in n.values]
-            if isinstance(n.op, ast.And):
-                for v in vals:
-                    if not v:
-                        return v
-                return vals[-1]
-            for v in vals:
-                if v:
-                    return v
-            return vals[-1]
+            # short-circuit like Python does: `b is None or b > 1` never compares None
+            last = None
+            for sub_ in n.values:
+                last = ev(sub_)
+                if isinstance(n.op, ast.And) and not last:
+                    return last
+                if isinstance(n.op, ast.Or) and last:
+                    return last
+            return last
         if isinstance(n, ast.UnaryOp) and isinstance(n.op, ast.Not):
             return not ev(n.operand)
         if isinstance(n, ast.Compare) and len(n.ops) == 1:
@@ -401,6 +400,18 @@ def _filters(v: ast.expr) -> list[tuple[str, ast.expr, ast.expr, ast.expr]]:
             elif isinstance(gg.target, ast.Tuple) and len(gg.target.elts) == 2 and norm.match(T("enumerate($s)"), gg.iter) is not None:
                 var = gg.target.elts[1].id  # type: ignore[attr-defined]
                 seq = gg.iter.args[0]  # type: ignore[attr-defined]
+            if var is None and isinstance(gg.target, ast.Tuple) and len(gg.target.elts) == 2 and all(isinstance(e, ast.Name) for e in gg.target.elts) \
+                    and len(gg.ifs) == 1:
+                # selection by a mask computed from the same sequence: [x for x, keep in zip(S, [p(y) for y in S]) if keep]
+                mz = norm.match(T("zip($s, $k)"), gg.iter)
+                tx, tk = (e.id for e in gg.target.elts)  # type: ignore[attr-defined]
+                if mz is not None and isinstance(gg.ifs[0], ast.Name) and gg.ifs[0].id == tk:
+                    mask = norm.primary(mz["k"])
+                    if isinstance(mask, (ast.ListComp, ast.GeneratorExp)) and len(mask.generators) == 1 and not mask.generators[0].ifs \
+                            and isinstance(mask.generators[0].target, ast.Name) and ast.unparse(norm.primary(mask.generators[0].iter)) == ast.unparse(norm.primary(mz["s"])):
+                        out.append((mask.generators[0].target.id, mz["s"], mask.elt, sub.elt))
+                        continue
+                raise AnalysisError(f"selection `{ast.unparse(sub)[:100]}` is not recognised as a filter over one sequence")
             if var is None:
                 continue
             pred = gg.ifs[0] if len(gg.ifs) == 1 else (ast.BoolOp(ast.And(), gg.ifs) if gg.ifs else sub.elt)
@@ -410,14 +421,14 @@ def _filters(v: ast.expr) -> list[tuple[str, ast.expr, ast.expr, ast.expr]]:
     return out
 
 
-def drop_unit(repo: Repo, chk: Check) -> None:
+def drop_unit(repo: Repo, chk: Check, rule: str = "C03.drop-unit", quals: tuple[str, ...] = ("AccessPattern.canonicalize", "PatternCollection.clear_unused_dims"), floor: int = 4) -> None:
     chk.rule(
-        "C03.drop-unit",
+        rule,
         "where unit dimensions are dropped, bounds and matrix columns are filtered by the same predicate over the same "
         "bound sequence, and the predicate only rejects bound == 1",
-        floor=4,
+        floor=floor,
     )
-    for qual in ("AccessPattern.canonicalize", "PatternCollection.clear_unused_dims"):
+    for qual in quals:
         f, fl = flow_of(repo, chk, AP, qual)
         for s in [x for x in fl.stmts(ast.Return) if x.reachable]:
             v = fl.cone(s.node.value, s, inline=0)
@@ -429,7 +440,7 @@ def drop_unit(repo: Repo, chk: Check) -> None:
                 p = expand(pred, {var: ast.Name("__b__", ast.Load())})
                 canon.append((ast.unparse(norm.primary(seq)), ast.unparse(norm.canon(p))))
             same = len(set(canon)) == 1
-            chk.result(same, "C03.drop-unit", f"{f.key}:same-predicate", s.where(),
+            chk.result(same, rule, f"{f.key}:same-predicate", s.where(),
                        f"bounds and columns are filtered by `{canon[0][1]}` over `{canon[0][0]}`",
                        f"bounds and columns are filtered differently: {sorted(set(canon))}: a dimension keeps its column but loses its bound (or vice versa)")
             # dropping columns is ALL that happens to the maps: no column is rewritten and the bias is the original one
@@ -439,14 +450,14 @@ def drop_unit(repo: Repo, chk: Check) -> None:
             bias_changed = [ast.unparse(norm.primary(b_))[:60] for b_ in biases if any(isinstance(x, ast.BinOp) for x in ast.walk(norm.primary(b_)))
                             or not norm.contains(b_, T("$p.b"))]
             if qual == "AccessPattern.canonicalize":
-                chk.result(not altered and not bias_changed, "C03.drop-unit", f"{f.key}:only-selection", s.where(),
+                chk.result(not altered and not bias_changed, rule, f"{f.key}:only-selection", s.where(),
                            "the returned map is a column selection of the original matrix with the original bias",
                            f"the map is changed beyond dropping unit dimensions (stores into the matrix: {altered[:2]}; bias: {bias_changed[:2]}): operands are "
                            "canonicalised one by one, so re-orienting a dimension for one operand changes the joint index tuples")
             var, _, pred, _ = fs[0]
             keeps = {val: _abstract_eval(pred, var, val) for val in (None, 1, 2, 3, 10**9)}
             ok = keeps[1] is False and all(keeps[k] in (True, None) for k in (2, 3, 10**9)) and keeps[None] in (True, None)
-            chk.result(ok, "C03.drop-unit", f"{f.key}:only-unit", s.where(),
+            chk.result(ok, rule, f"{f.key}:only-unit", s.where(),
                        "the predicate rejects exactly bound == 1",
                        f"the keep-predicate `{ast.unparse(pred)}` evaluates to {keeps} on None/1/2/3/large: it drops a dimension with more than one iteration")
 
